@@ -7,6 +7,10 @@ import (
 	"mltwist/pkg/model"
 )
 
+// maxProgSize is the maximal allowed in-memory size of a single program section
+// in bytes.
+const maxProgSize = 1 << 30
+
 type Parser struct {
 	f *elf.File
 }
@@ -61,6 +65,15 @@ func (p *Parser) Memory() (*Memory, error) {
 			return nil, fmt.Errorf(
 				"program section in memory less then in file: %d < %d",
 				p.Memsz, p.Filesz)
+		}
+
+		// Memsz comes from the file, so it has to be checked before the
+		// memory is allocated. No reasonable program has a section of
+		// this size.
+		if p.Memsz > maxProgSize {
+			return nil, fmt.Errorf(
+				"program section in memory is too big: %d > %d",
+				p.Memsz, maxProgSize)
 		}
 
 		data, err := io.ReadAll(p.Open())
